@@ -86,6 +86,14 @@ func genC15(t *rapid.T) CaseC15 {
 	default:
 		c.D = rapid.Uint64Range(1, c15Lower).Draw(t, "d")
 	}
+	if rapid.IntRange(0, 7).Draw(t, "land-pow2") == 0 {
+		// p + d lands on (or next to) a power of two inside the range: where an implementation that works in 32-bit halves carries
+		target := uint64(1)<<uint(rapid.IntRange(28, 33).Draw(t, "land-k")) + uint64(rapid.IntRange(-2, 2).Draw(t, "land-off")+2) - 2
+		if rapid.Bool().Draw(t, "land-small-d") {
+			c.D = rapid.SampledFrom([]uint64{1, 2, 3, 90000, 5400000}).Draw(t, "land-d")
+		}
+		c.P = (target - c.D) & c15Max
+	}
 	if rapid.IntRange(0, 7).Draw(t, "mirror") == 0 {
 		// a pair that mirrors the wrap: p lies as far before it as p+d lies behind it (q is that second value)
 		var b uint64
